@@ -5,6 +5,7 @@ import ast as A
 import common as C
 
 M = 'zlink-macros/src/introspect'
+KEYED_METHODS = {'entry', 'or_insert', 'or_insert_with', 'or_insert_with_key', 'or_default', 'into_values', 'into_keys', 'dedup_by_key', 'dedup_by'}
 ORDER_BREAKERS = {'rev', 'sort', 'sort_by', 'sort_by_key', 'sort_unstable', 'sort_unstable_by', 'reverse', 'skip', 'step_by', 'take', 'dedup', 'retain', 'swap', 'rotate_left',
                   'rotate_right', 'insert', 'append', 'extend', 'extend_from_slice', 'splice', 'drain', 'chain', 'filter', 'partition'}
 
@@ -182,6 +183,18 @@ def check_templates(fx, rep):
         for x in A.nodes(n['body']):
             if x.get('k') == 'mcall' and x.get('method') in ORDER_BREAKERS and A.text(x.get('recv')) in accs:
                 bad.append('%s.%s(..)' % (A.text(x.get('recv')), x.get('method')))
+        # members must not pass through a keyed container: equal keys collapse into one entry and the order becomes the key order
+        keyed = []
+        for x in A.nodes(n['body']):
+            if x.get('k') == 'mcall' and x.get('method') in KEYED_METHODS:
+                keyed.append('.%s(..)' % x.get('method'))
+            if x.get('k') in ('call', 'path'):
+                txt = re.sub(r'\s', '', (x.get('func') if isinstance(x.get('func'), str) else '') or x.get('text') or '')
+                mm = re.match(r'(?:\w+::)*(BTreeMap|HashMap|BTreeSet|HashSet|IndexMap|IndexSet)(?:::<.*>)?::', txt)
+                if mm:
+                    keyed.append(mm.group(1))
+        if keyed:
+            bad.append('described members pass through a keyed / de-duplicating container (%s): members with equal keys collapse into one description and the order becomes the key order' % ', '.join(sorted(set(keyed))))
         for ch in chains:
             root, names = A.method_chain(ch)
             br = [m_ for m_ in names if m_ in ORDER_BREAKERS - {'filter'}]
